@@ -52,7 +52,13 @@ def cases(draw, max_nodes):
         # the OS refuses to start the k-th thread run asks for (thread / pid limit)
         case["sched"] = draw(harness.schedules(det_only=True))
         case["thread_start_fails"] = draw(st.integers(1, 2 * cfg["workers"]))
-    if draw(st.sampled_from([True, False, False, False])):
+    if "failing_sink" not in case and "thread_start_fails" not in case and draw(st.integers(0, 7)) == 0:
+        # the caller's transform_physical closes a dependency cycle in the plan that is about to be executed
+        case["tcycle"] = draw(st.sampled_from(["copy_cycle_new", "inplace_cycle_new", "copy_cycle_edge", "inplace_cycle_edge"]))
+        for nd in spec["nodes"]:
+            if nd["k"] == "call" and nd["beh"]["t"] == "raise":
+                nd["beh"] = {"t": "ok"}
+    elif draw(st.sampled_from([True, False, False, False])):
         # a back edge b -> a with a a strict ancestor of b
         cands = []
         for b in range(len(g.nodes)):
@@ -115,6 +121,8 @@ def check_case(ctx, case, record=True):
         if sink:
             from uberjob.progress import html_progress
             return w.run(cfg, registry=case["registry"], progress=html_progress(failing_output))
+        if case.get("tcycle"):
+            return w.run(cfg, registry=case["registry"], transform_physical=w.transform(case["tcycle"]))
         return w.run(cfg, registry=case["registry"])
 
     xkw = {}
@@ -147,7 +155,9 @@ def check_case(ctx, case, record=True):
             cl.append("thread_start_refused")
         if sink:
             cl.append("failing_display_sink:" + sink)
-        nt = (workers >= 2 and nfail > 0) or workers > len(spec["nodes"]) or cyclic
+        if case.get("tcycle"):
+            cl.append("cycle_closed_by_transform_physical:" + str(getattr(w, "tcycle_made", None)))
+        nt = (workers >= 2 and nfail > 0) or workers > len(spec["nodes"]) or cyclic or bool(case.get("tcycle"))
         ctx.case(case, nt, cl)
     if fired and out.status == "ok" and not cyclic:
         ctx.violation(case2, f"the start of thread {tsf} was refused but run returned normally ({out.value!r})")
@@ -159,6 +169,14 @@ def check_case(ctx, case, record=True):
         ctx.violation(case2, f"threads created by run still alive when it returned: {out.alive_after}")
     if "n" in mark and len(w.events) > mark["n"]:
         ctx.violation(case2, f"events logged after run returned: {[(e[1], e[2]) for e in w.events[mark['n']:]]}")
+    if case.get("tcycle") and getattr(w, "tcycle_made", None):
+        # every node of the transformed physical plan is one the run has to examine; the stale check (modified-time
+        # queries) legitimately ran before the transformation, calls and store reads/writes must not
+        work = [(e[1], e[2]) for e in w.events if not str(e[1]).startswith("mt")]
+        if out.status == "ok":
+            ctx.violation(case2, f"transform_physical closed a dependency cycle ({w.tcycle_made}) but run returned {out.value!r}")
+        if work:
+            ctx.violation(case2, f"transform_physical closed a dependency cycle ({w.tcycle_made}) but work was done: {work[:10]}")
     if cyclic and not fired:
         to = specs.ref_index(spec["back"][0][1])
         if case["registry"] and refmodel.entries(spec):
